@@ -102,9 +102,13 @@ def gen_call(rng, facts, sc, op=None, p_opt=0.3):
     of = facts["ops"][op]
     ctors = facts["options"][of["options_type"]]
     user = rng.choice(["u1", "u1", "u1", "u2", "u2", "", "", "", "nobody"])
+    if rng.random() < 0.75:     # mostly a user that has connections in this scenario
+        user = rng.choice([c["user"] for c in sc["conns"]])
     opts = []
     for oc in ctors:
-        if rng.random() < p_opt:
+        # options that narrow the set of addressed connections are drawn less often, otherwise most calls address nobody
+        narrowing = any(k in oc["name"] for k in ("Client", "Session", "LabelFilter", "Whitelist"))
+        if rng.random() < (p_opt * 0.4 if narrowing else p_opt):
             if len(oc["params"]) != 1:
                 raise ValueError(f"{oc['name']}: option with {len(oc['params'])} parameters")
             opts.append(f"{oc['name']}:{value_for(rng, oc['name'], oc['params'][0]['type'], sc)}")
